@@ -97,7 +97,7 @@ def check_grammar(grammar, maxlen=5, limit=3):
     n = 0
     reached = {"ok": 0, "fail": 0, "raise": 0}
     for L in range(0, maxlen + 1):
-        for toks in itertools.product(G.TOKENS, repeat=L):
+        for toks in itertools.product(grammar.get("tokens", G.TOKENS), repeat=L):
             for r in grammar["rules"]:
                 a = run_impl(cls, r["name"], toks)
                 b = run_ref(grammar, r["name"], toks)
@@ -148,7 +148,7 @@ def model_comparison(grammar, code, cls, maxlen):
     kws = set(ir["keywords"])
     reqs = []
     for L in range(0, maxlen + 1):
-        for toks in itertools.product(G.TOKENS, repeat=L):
+        for toks in itertools.product(grammar.get("tokens", G.TOKENS), repeat=L):
             tl = [f"NAME:{ir['strings'].get(t, 10 ** 6)}:{1 if t in kws else 0}:0" for t in toks] + [f"ENDMARKER:{ir['strings'].get('', 10 ** 6)}:0:0"]
             for r in grammar["rules"]:
                 if r["name"] in names:
@@ -262,6 +262,26 @@ def multi_cycle_family():
     return out
 
 
+def keyword_table_family():
+    """Grammars with NAME items and ZERO, exactly ONE or TWO hard keywords, run on token alphabets that contain the keyword,
+    pieces of it and an ordinary name: `NAME` must refuse exactly the keywords (the KEYWORDS table of the generated
+    module), whatever their number."""
+    T = lambda s, name=None: ({"k": "tok", "s": s, "name": name} if name else {"k": "tok", "s": s})  # noqa: E731
+    N = lambda name=None: ({"k": "name", "name": name} if name else {"k": "name"})  # noqa: E731
+    out = []
+    out.append({"tokens": ["print", "pr", "int", "x"], "rules": [{"name": "r0", "memo": False, "alts": [
+        {"items": [T("print"), N("a")], "action": "tuple"}, {"items": [N("a"), N("b")], "action": "tuple"}]}]})
+    out.append({"tokens": ["end", "en", "d", "x"], "rules": [{"name": "r0", "memo": False, "alts": [
+        {"items": [{"k": "star", "x": N(), "name": "a"}, T("end")], "action": "tuple"}]}]})
+    out.append({"tokens": ["if", "then", "i", "the"], "rules": [{"name": "r0", "memo": True, "alts": [
+        {"items": [T("if"), N("a"), T("then"), N("b")], "action": "tuple"}, {"items": [N("a")], "action": "tuple"}]}]})
+    out.append({"tokens": ["a", "=", "ab"], "rules": [{"name": "r0", "memo": False, "alts": [
+        {"items": [N("a"), T("="), N("b")], "action": "tuple"}]}]})
+    out.append({"tokens": ["not", "no", "t", "x"], "rules": [{"name": "r0", "memo": False, "alts": [
+        {"items": [{"k": "neg", "x": T("not")}, N("a"), {"k": "opt", "x": N(), "name": "b"}], "action": "tuple"}, {"items": [T("not"), {"k": "rule", "n": "r0", "name": "a"}], "action": "tuple"}]}]})
+    return out
+
+
 def run(rep, tier, pool, variants=("shipped",)):
     rep.rule = (
         "random well-formed grammars (1-4 rules, 1-3 alternatives, items: tokens, rule refs, groups, ? * + gather & ! ~ && , memo flags, direct and "
@@ -277,9 +297,10 @@ def run(rep, tier, pool, variants=("shipped",)):
     fam = [g for g in multi_cycle_family() if G.well_formed(g)]
     gs += fam if tier != "quick" else [fam[i] for i in range(0, len(fam), 2)]
     gs += [g for g in same_name_family() + inlined_choice_family() if G.well_formed(g)]
+    gs += keyword_table_family()
     rep.extra["multi_cycle_grammars"] = len(fam)
     tries = 0
-    while len(gs) < n + len(FIXED) + len(fam) + 21 and tries < n * 60:
+    while len(gs) < n + len(FIXED) + len(fam) + 26 and tries < n * 60:
         tries += 1
         g = G.gen_grammar(r)
         try:
